@@ -79,6 +79,7 @@ type Setup struct {
 	Svc           bool
 	FinalEcho     bool
 	Wrapper       bool         // a HandlerWrapper (identity) is installed before the routes are registered
+	NestedRoute   bool         // a plain route /__nested (GET and POST) that writes; handlers may dispatch sub-requests to it
 	LateMw        int          // this many of the trailing application middleware are added with Use() only after the routes exist
 	ViaHandlers   bool         // the middleware stack is installed with Handlers() (replacing a throw-away stack) instead of Use()
 	NotFoundTwice bool         // NotFound() is called with a throw-away handler first
@@ -152,9 +153,10 @@ type Profile struct {
 	SvcPm         int
 	EnvLatePm     int
 	WrapperPm     int
-	RegVariantsPm int // less common registration sequences (Handlers(), NotFound() twice, Use() after routes, per-route AutoHead, empty group paths, ROUTES with string methods)
-	ReqLoggerPm   int // given Logger: a middleware in front of it maps a request-scoped logger
-	TwinMethodPm  int // a route gets a sibling registration of the same path for another method, with its own handlers
+	Nested        bool // register /__nested and give every request a sub-request record
+	RegVariantsPm int  // less common registration sequences (Handlers(), NotFound() twice, Use() after routes, per-route AutoHead, empty group paths, ROUTES with string methods)
+	ReqLoggerPm   int  // given Logger: a middleware in front of it maps a request-scoped logger
+	TwinMethodPm  int  // a route gets a sibling registration of the same path for another method, with its own handlers
 	GroupPm       int
 	ActionPm      int
 	NotFoundPm    int
@@ -226,6 +228,7 @@ func GenSetup(g *tape.Stream, p *Profile) *Setup {
 	s.EnvLate = g.Chance(p.EnvLatePm)
 	s.BogusEnv = g.Chance(p.EnvLatePm)
 	s.Wrapper = g.Chance(p.WrapperPm)
+	s.NestedRoute = p.Nested
 	s.ViaHandlers = g.Chance(p.RegVariantsPm)
 	s.NotFoundTwice = g.Chance(p.RegVariantsPm)
 	s.SubgroupFirst = g.Chance(p.RegVariantsPm)
